@@ -35,6 +35,8 @@ pub fn allow_lists() -> Vec<(&'static str, Vec<Vec<SwapRoute>>)> {
         ("empty", vec![]),
         ("prefixes", vec![vec![hop(1, A, B)], vec![hop(1, A, B), hop(1, B, A)], vec![hop(1, A, B), hop(2, B, C), hop(2, C, A)]]),
         ("hasempty", vec![vec![], vec![hop(2, C, A)]]),
+        // two routes of the same length that differ in every position (cross-overs must be refused)
+        ("cross", vec![vec![hop(1, A, B), hop(2, B, C)], vec![hop(3, A, B), hop(1, B, A)]]),
     ]
 }
 
